@@ -267,6 +267,9 @@ def run(c):
     # and restores then meet sstables, tombstones in memtables and checkpoints that reference tables
     for i, mt in enumerate((200,) if c.tier == "quick" else (150, 400, 1000)):
         replay_sim(c, "C10", consts(MaxT=4, MaxBytes=cap(1 + i % 3), **gen), n, s + 40 + i, hcfg=dict(MemTable=mt))
+    # a cache budget smaller than the number of key groups (every key group's share rounds down to 0 bytes): timers must
+    # still fire exactly once, in order (the cache is a performance device; what it holds is not demanded)
+    replay_sim(c, "C10", consts(MaxT=4, MaxBytes=cap(1), **gen), max(n // 2, 20), s + 45, hcfg=dict(TotalCacheBytes=1))
     # through the real Operator (TimerExpired deliveries)
     opk = consts(MaxT=4, **dict(gen, MaxLen=24))
     replay_sim(c, "C10", opk, nop, s + 50, mode="operator")
